@@ -101,6 +101,22 @@ def corpus17():
                           ("if", [(("atom", v("f"), ">=", c(1)), [("assign", "d", ("draw", ("bern", c(F(1, 4)))))])], None),
                           ("assign", "z", P.det(("add", v("z"), v("d"))))]},
                 [{"z": 1}, {"z": 1, "d": 1}], "conditioned-draw"))
+    # conditioned draw into a variable that is ALSO assigned earlier in the same iteration: after MultiAssignTransformer the
+    # default of the guarded draw is the previous version (_x1), not the variable itself
+    out.append(({"types": [], "init": [("assign", "f", P.det(c(0))), ("assign", "x", P.det(c(0))), ("assign", "y", P.det(c(0)))],
+                 "guard": ("true",),
+                 "body": [("assign", "f", ("draw", ("bern", c(F(1, 3))))), ("assign", "x", P.det(("add", v("x"), c(2)))),
+                          ("if", [(("atom", v("f"), "==", c(1)), [("assign", "x", ("draw", ("unif", 2, 4)))])], None),
+                          ("assign", "y", P.det(("add", v("y"), v("x"))))]},
+                [{"x": 1}, {"y": 1}, {"x": 2}], "conditioned-draw-into-reassigned-variable"))
+    out.append(({"types": [], "init": [("assign", "f", P.det(c(0))), ("assign", "d", P.det(c(1))), ("assign", "z", P.det(c(0)))],
+                 "guard": ("true",),
+                 "body": [("assign", "f", ("choice", [(c(F(1, 2)), c(0)), (c(F(1, 4)), c(1)), (c(F(1, 4)), c(2))])),
+                          ("assign", "d", ("choice", [(c(F(1, 2)), c(1)), (c(F(1, 2)), c(3))])),
+                          ("if", [(("atom", v("f"), ">=", c(1)), [("assign", "d", ("draw", ("bern", c(F(1, 4)))))]),
+                                  (("atom", v("d"), "==", c(3)), [("assign", "d", ("draw", ("cat", [c(F(1, 2)), c(F(1, 4)), c(F(1, 4))])))])], None),
+                          ("assign", "z", P.det(("add", v("z"), ("mul", v("d"), v("f")))))]},
+                [{"z": 1}, {"d": 1}, {"z": 1, "d": 1}], "conditioned-draws-elif-into-reassigned-variable"))
     # loop guard
     out.append(({"types": [], "init": [("assign", "g", P.det(c(0))), ("assign", "m", P.det(c(0)))],
                  "guard": ("atom", v("g"), "==", c(0)),
